@@ -131,14 +131,14 @@ func stepsOf(tests map[string][]Step, name string) []Step {
 
 func genC08(t *rapid.T) c08Case {
 	c := c08Case{Tests: map[string][]Step{}}
-	subPool := []string{"sub1", "sub2", "Sub", "deep", "s", "2", "Alpha"}
+	subPool := []string{"sub1", "sub2", "Sub", "deep", "s", "2", "Alpha", "sub1.1", "sub1-b", "s s"}
 	ntests := rapid.IntRange(2, 5).Draw(t, "ntests")
 	perm := rapid.Permutation(indices(len(c08Pool))).Draw(t, "tests")
 	for _, i := range perm[:ntests] {
 		c.Tests[c08Pool[i].test] = genC08Steps(t, 2, subPool)
 	}
 	names := allNames(c.Tests)
-	for i := rapid.IntRange(0, 2).Draw(t, "nskips"); i > 0; i-- {
+	for i := rapid.IntRange(0, 4).Draw(t, "nskips"); i > 0; i-- {
 		name := rapid.SampledFrom(names).Draw(t, "skipname")
 		if _, dup := skipPoint(c.Skips, name); dup {
 			continue
